@@ -1,5 +1,6 @@
 CONSTANTS
   Dev = {}
+  Mut = {}
   Tier = 1
   Big = 300
 SPECIFICATION Spec
@@ -10,9 +11,17 @@ INVARIANT LawRdata
 INVARIANT LawRecord
 INVARIANT LawRecordHash
 INVARIANT LawTransitive
+INVARIANT LawCarrier
+INVARIANT LawCarrierPair
+INVARIANT LawCarriedRd
+INVARIANT LawCarriedRec
 INVARIANT EmitLabel
 INVARIANT EmitName
 INVARIANT EmitCharStr
 INVARIANT EmitRdata
 INVARIANT EmitRecord
+INVARIANT EmitCarrier
+INVARIANT EmitCarrierPair
+INVARIANT EmitCarriedRd
+INVARIANT EmitCarriedRec
 CHECK_DEADLOCK FALSE
